@@ -74,7 +74,9 @@ HoleCase(e, hs, hidx) ==
         valid |-> /\ \A i \in DOMAIN hs : ~outside(i) /\ ~eline(i)
                   /\ \A q \in pairs : ~hline(q[1], q[2]) /\ ~harea(q[1], q[2]),
         few |-> <<>>, self |-> <<>>,
-        notcontained |-> SetToSeq({i \in DOMAIN hs : outside(i)}),
+        \* "not contained in the exterior ring" is real when part of the hole ring is outside the shell, or when the hole ring
+        \* never enters the shell's interior at all (it runs entirely along the shell's boundary, e.g. a hole equal to the shell)
+        notcontained |-> SetToSeq({i \in DOMAIN hs : outside(i) \/ ~\E p \in F : ph[i][p] = "B" /\ pe[p] = "I"}),
         line |-> SetToSeq({<<0, i>> : i \in {i \in DOMAIN hs : eline(i)}} \cup {q \in pairs : hline(q[1], q[2])}),
         area |-> SetToSeq({<<0, i>> : i \in {i \in DOMAIN hs : outside(i)}} \cup {q \in pairs : harea(q[1], q[2])})]
 
